@@ -287,7 +287,7 @@ def writeRef (r : LRef) (n : Int) : M Unit := do
 
 /-! ## rendering -/
 
-def renderInt (n : Int) : String := toString n
+def renderInt (n : Int) : String := String.ofList (Render.renderDec n)
 
 /-! ## the evaluator -/
 
@@ -507,8 +507,12 @@ def execS (p : Prog) : Nat → Stmt → M Unit
         printSeq p fuel true items
         emit "\n"
     | .printI parts => do
-        let strs ← printItems p fuel parts
-        emit (String.join strs ++ "\n")
+        let args ← printItems p fuel parts
+        emit (String.ofList (args.flatMap Render.PArg.plain) ++ "\n")
+    | .printF fmt args => do
+        let vals ← printItems p fuel args
+        emit (String.ofList (Render.printf fmt.toList vals) ++ "\n")
+    | .printRaw items => printSeq p fuel true items
     | .ifS c t e => do
         let cv ← evalE p fuel c
         if cv != 0 then execSs p fuel t
@@ -572,19 +576,25 @@ def printSeq (p : Prog) : Nat → Bool → List PItem → M Unit
       | .expr e => do
         let v ← evalE p fuel e
         emit (renderInt v)
+      | .exprF e sp => do
+        let v ← evalE p fuel e
+        emit (String.ofList (Render.renderISpec sp v))
       printSeq p fuel false r
 
-def printItems (p : Prog) : Nat → List PItem → M (List String)
+def printItems (p : Prog) : Nat → List PItem → M (List Render.PArg)
   | 0, _ => oofM
   | _ + 1, [] => pure []
   | fuel + 1, it :: r => do
-      let s ← (match it with
-        | .str s => pure s
+      let a ← (match it with
+        | .str s => pure (Render.PArg.str s.toList)
         | .expr e => do
           let v ← evalE p fuel e
-          pure (renderInt v))
+          pure (Render.PArg.int v)
+        | .exprF e sp => do
+          let v ← evalE p fuel e
+          pure (Render.PArg.str (Render.renderISpec sp v)))
       let rest ← printItems p fuel r
-      pure (s :: rest)
+      pure (a :: rest)
 
 end
 
